@@ -1029,6 +1029,16 @@ func (vm *VirtualMachine) reloadCode(main *compiler.Code) *code {
 	delete(vm.loadedCode, main)
 	newWrappedMain := vm.loadCode(main)
 	copy(newWrappedMain.Globals, oldWrappedMain.Globals)
+	// Functions that were loaded by earlier runs share the globals array of
+	// the main code. Point them at the new array, otherwise they would keep
+	// reading and writing the globals as they were before this reload.
+	vm.cloneMutex.Lock()
+	defer vm.cloneMutex.Unlock()
+	for cc, c := range vm.loadedCode {
+		if cc != main && cc.Root() == main {
+			c.Globals = newWrappedMain.Globals
+		}
+	}
 	return newWrappedMain
 }
 
